@@ -579,8 +579,9 @@ class AbsSlice:
                         raise Mismatch(f'field {t.name}:{t.ty}{t.n} is read with load_{mode}({n}) (signedness)')
                     s.trace.append((f'load_{mode}({n})', f'{t.name}:{t.ty}{t.n}'))
                     return s.field_value(t, mode)
-                if mode in ('uint', 'int'):
-                    # an integer load must coincide with exactly one schema field (raw reads - bits/bytes/skip - may span or split fields)
+                if mode in ('uint', 'int') and not s.peeking:
+                    # an integer load must coincide with exactly one schema field (raw reads - bits/bytes/skip - may span or split fields);
+                    # a peek (preload_uint used for dispatch on a tag) may look further: its unknown bits stay unknown
                     raise Mismatch(f'load_{mode}({n}) does not coincide with field {t.name}:{t.ty}{t.n}')
                 k = min(need, t.n)
                 pat += '?' * k
@@ -743,8 +744,56 @@ class AbsSlice:
         s.trace.append((what, repr(t)))
         return t
 
+    def bit_bounds(s):
+        """(min, max) number of data bits the schema leaves in this slice; max None = unbounded / unknown"""
+        lo, hi = 0, 0
+        env = dict(s.env)
+        for t in s.toks:
+            toks = [t]
+            if t.kind == 'FIELD':
+                save = s.env
+                try:
+                    s.env = env
+                    toks = s.lower(t.te, t.name)
+                except (Fail, Mismatch):
+                    hi = None
+                    continue
+                finally:
+                    s.env = save
+            for x in toks:
+                k = x.kind
+                if k == 'ENV':
+                    env = dict(x.env)
+                elif k == 'TAG':
+                    lo += len(x.bits)
+                    hi = None if hi is None else hi + len(x.bits)
+                elif k == 'PRIM' and isinstance(x.n, int):
+                    lo += x.n
+                    hi = None if hi is None else hi + x.n
+                elif k in ('VARU', 'VARI'):
+                    lo += x.l
+                    hi = None if hi is None else hi + x.l + 8 * ((1 << x.l) - 1)
+                elif k == 'ADDR':
+                    lo += 2
+                    hi = None
+                elif k in ('MAYBE', 'EITHER', 'HASHMAPE', 'HASHMAPAUGE'):
+                    lo += 1
+                    hi = None if k in ('MAYBE', 'EITHER', 'HASHMAPAUGE') or hi is None else hi + 1
+                elif k in ('REF', 'CONSTRAINT'):
+                    pass
+                else:
+                    hi = None
+        return lo, hi
+
     # ---- the Slice API
     def abs_attr(s, it, a, node):
+        if a == 'remaining_bits':
+            lo, hi = s.bit_bounds()
+            if hi is not None and lo == hi:
+                return K(lo)
+            r = Sym('slice.remaining_bits', key=('sliceattr', id(s), a, len(s.trace)), not_none=True)
+            r.bounds = (lo, hi)
+            return r
         if a in ('remaining_bits', 'remaining_refs', 'bits', 'refs', 'ref_offset'):
             return Sym(f'slice.{a}', key=('sliceattr', id(s), a, len(s.trace)))
         if a == 'type_':
@@ -960,6 +1009,9 @@ def install_modular(it, db, classmap, root_class, leftovers=None):
     prev = getattr(it, 'summary_hook', None)
 
     def hook(f, args, kw):
+        if f.cls is not None and f.cls.name == 'Slice' and args and isinstance(args[0], AbsSlice):
+            # Slice.load_x(slice_obj): the unbound spelling of slice_obj.load_x() - the typestate model answers, not the real method body
+            return args[0].method(it, f.name, list(args[1:]), kw, None)
         if f.name == 'deserialize' and f.cls is not None and len(args) >= 2 and isinstance(args[1], AbsSlice) and isinstance(args[0], ClassRef):
             cls = args[0]
             info = classmap.get(cls.name)
